@@ -11,9 +11,9 @@ import (
 	"deps.dev/util/resolve"
 	"deps.dev/util/resolve/dep"
 	gr "github.com/google/osv-scalibr/guidedremediation"
-	"verifharness/internal/coqfmt"
 	"github.com/google/osv-scalibr/guidedremediation/options"
 	"github.com/google/osv-scalibr/guidedremediation/result"
+	"verifharness/internal/coqfmt"
 )
 
 // ---- ConstructPatches
